@@ -362,7 +362,7 @@ Definition micro (w : world) (ar : arena) (k : cbkind) (m : mop) : arena * list 
         match okind so with
         | KSet =>
           (* a DynamicRootSet cannot itself be stashed (its Gc is not exposed) *)
-          if live so && negb (match get c cid with Some co => kind_eqb (okind co) KSet | None => true end) then
+          if live so && ntr so && negb (match get c cid with Some co => kind_eqb (okind co) KSet | None => true end) then
             let c1 := add_lic (backward_barrier c sid (Some cid)) (LPair sid cid) in
             let '(sl', idx, grew) := slots_add sl in
             match get c1 sid with
@@ -389,7 +389,13 @@ Definition micro (w : world) (ar : arena) (k : cbkind) (m : mop) : arena * list 
         | KSet =>
           if live so then
             let ok := Nat.eqb (h_uid hd) (auid ar) && Nat.eqb (h_set hd) sid in
-            upd (if ok then set_rg c r (Some (h_ptr hd)) else c) [ob ok; if ok then Z.of_nat (h_ptr hd) else (-1)%Z]
+            if ok then
+              (* the slot invariant (Proofs/Slots.v, C14) shows the handle's target is always still
+                 held by the set; a dangling handle would be reported as output 9 *)
+              if existsb (fun s => match s with Some y => Nat.eqb y (h_ptr hd) | None => false end) (strong so)
+              then upd (set_rg c r (Some (h_ptr hd))) [1%Z; Z.of_nat (h_ptr hd)]
+              else upd c [9%Z; (-1)%Z]
+            else upd c [0%Z; (-1)%Z]
           else keep
         | _ => keep
         end
@@ -497,10 +503,10 @@ Definition step (w : world) (o : op) : world * result :=
             (set_cur (put_arena w a (Some (mkArena c3 (auid ar) (asets ar)))) (Some (a, k, true)),
              mkResult [1%Z] [])
           | CFinalize fin =>
-            let '(c1, _, oc) := do_collection dec_debt c (if fin then RunStop else PayDebt) FullyMarked None in
+            let '(c1, evs, oc) := do_collection dec_debt c (if fin then RunStop else PayDebt) FullyMarked None in
             let ent := is_marked c1 in
             (set_cur (put_arena w a (Some (mkArena c1 (auid ar) (asets ar)))) (Some (a, k, ent)),
-             mkResult [ob ent; outcome_code oc] [])
+             mkResult [ob ent; outcome_code oc] evs)
           | _ => nop
           end
         end
@@ -560,13 +566,13 @@ Definition step (w : world) (o : op) : world * result :=
   | OStartSweep a fin =>
     match cur w, get_arena w a with
     | None, Some ar =>
-      let '(c1, _, oc) := do_collection dec_debt (actx ar) (if fin then RunStop else PayDebt) FullyMarked None in
+      let '(c1, evs1, oc) := do_collection dec_debt (actx ar) (if fin then RunStop else PayDebt) FullyMarked None in
       if is_marked c1 then
         let '(c2, evs, oc2) := do_collection dec_debt c1 RunStop AtSweep None in
         (put_arena w a (Some (mkArena c2 (auid ar) (asets ar))),
-         mkResult [1%Z; ob (phase_eqb (ph c2) Sweep)] evs)
+         mkResult [1%Z; ob (phase_eqb (ph c2) Sweep)] (evs1 ++ evs))
       else
-        (put_arena w a (Some (mkArena c1 (auid ar) (asets ar))), mkResult [0%Z; 0%Z] [])
+        (put_arena w a (Some (mkArena c1 (auid ar) (asets ar))), mkResult [0%Z; 0%Z] evs1)
     | _, _ => nop
     end
   | ODropArena a =>
